@@ -111,6 +111,24 @@ func subIP(out string, seed uint64, tier string, arg string) {
 			emit(fmt.Sprintf("ipnet\t128\t%s\t%d", bigFromIP(ip16).String(), 96+plen), b2s(util.IntersectsIANAReserved(n16)))
 		}
 	}
+	// the same, with the address part as given (host bits may be set)
+	networkRaw := func(width int, base *big.Int, plen int) {
+		if plen < 0 || plen > width {
+			return
+		}
+		n := net.IPNet{IP: ipFromBig(width, base), Mask: net.CIDRMask(plen, width)}
+		inter := util.IntersectsIANAReserved(n)
+		emit(fmt.Sprintf("ipnet\t%d\t%s\t%d", width, base.String(), plen), b2s(inter))
+		if !inter {
+			for _, x := range probeHosts {
+				if n.Contains(x) && util.IsIANAReserved(x) {
+					rep.violate(Violation{"C19", fmt.Sprintf("IntersectsIANAReserved(%s/%d) is false although the network contains the reserved address %s", n.IP.String(), plen, x.String()),
+						"contains-reserved-not-intersecting-raw", map[string]interface{}{"network": fmt.Sprintf("%s/%d", n.IP.String(), plen), "address": x.String()}})
+					break
+				}
+			}
+		}
+	}
 	contains := func(nw int, nb *big.Int, plen int, xw int, xv *big.Int) {
 		if xv.Sign() < 0 || xv.BitLen() > xw || nb.Sign() < 0 || nb.BitLen() > nw {
 			return
@@ -155,6 +173,15 @@ func subIP(out string, seed uint64, tier string, arg string) {
 		for p := 0; p <= plen; p++ { // every super-net
 			network(width, first, p)
 			network(width, last, p)
+		}
+		// the same super-nets written with host bits set in their address part, the address being the first one of the block's
+		// sibling (10.0.0.0/8 -> 11.0.0.0/7 …): an IPNet need not be canonical, and the parsers hand name-constraint subtrees over as written
+		if plen >= 1 && plen <= width {
+			sib := new(big.Int).Xor(first, new(big.Int).Lsh(one, uint(width-plen)))
+			for p := 0; p < plen; p++ {
+				networkRaw(width, sib, p)
+			}
+			networkRaw(width, new(big.Int).Add(sib, one), plen/2)
 		}
 		for p := plen; p <= width && p <= plen+12; p++ { // boundary sub-nets
 			network(width, first, p)
